@@ -31,7 +31,7 @@ UNPROVED = ["normwise backward error of the returned values in f64 (tie + search
             "that libm's sqrt/pow return square/cube roots (hypotheses of quadratic_factors / cubic_factors; in the tie they are recorded values)"]
 
 MANIFEST = dict(
-    text=("Proved in Coq (18 theorems, all closed under the global context) for the executable model coq/Model/Roots.v -- ONE definition, "
+    text=("Proved in Coq (19 theorems; closed under the global context except float_roots_memory_safe, which mentions Coq's primitive-float constants) for the executable model coq/Model/Roots.v -- ONE definition, "
           "instantiated at an abstract field for the closed forms and at IEEE binary64 + the recorded libm calls for the tie. "
           "For every arithmetic (floats included): poly_solve returns exactly n values for degree n >= 1 and rejects degree 0 "
           "(roots_length, degree0_rejected); laguer makes at most MAXIT-1 passes, MAXIT regenerated from the source, and an Exhausted exit "
@@ -39,7 +39,8 @@ MANIFEST = dict(
           "at the returned iterate (laguer_converged_small); the number of laguer calls is n (degree >= 4) + n (refine) (trace_length); "
           "refine = true passes EVERY unpolished value through laguer on the undeflated polynomial (refine_polishes_all), and a polished "
           "value whose call exits Converged passes the smallness test on the undeflated polynomial (polished_converged); the snapping rule "
-          "(snap_cases). Over any commutative ring: laguer's inner loop computes (p(x), p'(x), p''(x)/2), identified by the Taylor expansion "
+          "(snap_cases); for the float instance with ANY oracle table and every nonempty input no Vec access is out of bounds and no usize "
+          "subtraction underflows, so the only panic of Polynomial::roots is the degree-0 guard (float_roots_memory_safe). Over any commutative ring: laguer's inner loop computes (p(x), p'(x), p''(x)/2), identified by the Taylor expansion "
           "(horner_triple, taylor_expansion); one deflation is p(t) = (t-x) q(t) + p(x) (deflate_spec); the whole deflation phase recomposes "
           "p exactly from the values found and one residual per value, hence p = a_n prod (t - x_j) when the residuals vanish "
           "(deflation_recomposes). Over any field with 2, 3 invertible: the linear, quadratic (either sign choice; the repaired q = 0 "
